@@ -42,7 +42,12 @@ fn run_case(c: &[String]) -> String {
 }
 
 fn main() {
-    std::panic::set_hook(Box::new(|_| {}));
+    // silent by default; MW_PANIC_MSG=1 prints the panic message and location on stderr (debugging aid)
+    if std::env::var("MW_PANIC_MSG").is_ok() {
+        std::panic::set_hook(Box::new(|info| eprintln!("PANIC-MSG {}", info)));
+    } else {
+        std::panic::set_hook(Box::new(|_| {}));
+    }
     let stdin = std::io::stdin();
     let out = std::io::stdout();
     let mut out = std::io::BufWriter::new(out.lock());
